@@ -154,7 +154,7 @@ func (s *Sim) attemptAll(b *WB, o *Op, locks int) *Finding {
 		return nil
 	}
 	// reads keep working under lock
-	if err := b.Verify(s.M, VerifyOpts{Values: true, Relations: true, Scan: false, Hooks: false, Dead: true}); err != nil {
+	if err := b.Verify(s.M, VerifyOpts{Values: true, Relations: true, Scan: false, Hooks: false, Dead: true, Locked: true}); err != nil {
 		return finding(CatLock, "%s: after the rejected calls the world differs from before: %v", b.Name, err)
 	}
 	return nil
